@@ -2,7 +2,12 @@
 
 package dns_naming
 
-import "github.com/irai/packet"
+import (
+	"fmt"
+	"sort"
+
+	"github.com/irai/packet"
+)
 
 // VerifNew is New without binding the multicast sockets (build tag verif only).
 func VerifNew(session *packet.Session) *DNSHandler {
@@ -11,4 +16,24 @@ func VerifNew(session *packet.Session) *DNSHandler {
 	h.DNSTable = make(map[string]packet.DNSEntry, 256)
 	h.mdnsCache = make(map[string]cache)
 	return h
+}
+
+// VerifMDNSCache renders the private mDNS response cache, one sorted line per entry (build tag
+// verif only).
+func (h *DNSHandler) VerifMDNSCache() []string {
+	h.mutex.RLock()
+	defer h.mutex.RUnlock()
+	var out []string
+	for k, c := range h.mdnsCache {
+		s := fmt.Sprintf("%x id=%d", k, c.id)
+		for _, e := range c.ipv4 {
+			s += fmt.Sprintf(" v4[%s %s %q]", e.Addr.MAC, e.Addr.IP, e.NameEntry.Name)
+		}
+		for _, e := range c.ipv6 {
+			s += fmt.Sprintf(" v6[%s %s %q]", e.Addr.MAC, e.Addr.IP, e.NameEntry.Name)
+		}
+		out = append(out, s)
+	}
+	sort.Strings(out)
+	return out
 }
